@@ -62,16 +62,30 @@ impl<'a> BytesCData<'a> {
     { unimplemented!() }
 }
 /// std: Cow::<str>::to_mut hands out the owned string (cloning first if borrowed); String::push_str appends
+/// dereferencing a Cow<str> gives the string it holds (std: Deref for Cow)
+pub axiom fn axiom_cow_str_dexr<'a>(c: &Cow<'a, str>)
+    ensures cow_target(c)@ == c@;
 /// std: `Cow<str>: From<&str>` borrows
 pub assume_specification<'a>[ <Cow<'a, str> as From<&'a str>>::from ](s: &'a str) -> (r: Cow<'a, str>)
     ensures r == Cow::<'a, str>::Borrowed(s);
 pub assume_specification<'a, 'b, B: ?Sized + ToOwned>[ Cow::<'a, B>::to_mut ](c: &'b mut Cow<'a, B>) -> (r: &'b mut <B as ToOwned>::Owned);
 
 //@extract de::Text | src/de/mod.rs :: struct Text | serves=C07 features=serialize
- struct Text<'a> {
-    text: Cow<'a, str>,
+ pub struct Text<'a> {
+    pub text: Cow<'a, str>,
 }
 //@end
+impl<'a> Deref for Text<'a> {
+    type Target = str;
+//@extract de::Text::deref | src/de/mod.rs :: impl<'a> Deref for Text<'a> :: fn deref | serves=C07 features=serialize
+    fn deref(&self) -> (r: &Self::Target)
+        ensures r@ == self.text@
+    {
+        proof { axiom_cow_str_dexr(&self.text); }
+        self.text.deref()
+    }
+//@end
+}
 //@extract de::DeEvent | src/de/mod.rs :: enum DeEvent | serves=C07 features=serialize
  enum DeEvent<'a> {
     /// Start tag (with attributes) `<tag attr="value">`.
@@ -95,14 +109,17 @@ spec fn de_wf<'a>(e: DeEvent<'a>) -> bool { e matches DeEvent::Start(s) ==> s.na
 pub open spec fn pe_wf<'a>(e: PayloadEvent<'a>) -> bool { e matches PayloadEvent::Start(s) ==> s.name_len <= s.buf@.len() }
 //@extract de::XmlRead | src/de/mod.rs :: trait XmlRead | serves=C07 features=serialize
  trait XmlRead<'i> {
+    /// ghost: the names this source was asked to skip to, in order (one entry per `read_to_end` call)
+    spec fn skips(&self) -> Seq<Seq<u8>>;
     /// Return an input-borrowing event.
     fn next(&mut self) -> (r: Result<PayloadEvent<'i>, DeError>)
         // what the event sources hand out are well-formed values (C03: the name of a tag lies inside its buffer)
-        ensures r matches Ok(e) ==> pe_wf(e);
+        ensures r matches Ok(e) ==> pe_wf(e), final(self).skips() == old(self).skips();
 
     /// Skips until end element is found. Unlike `next()` it will not allocate
     /// when it cannot satisfy the lifetime.
-    fn read_to_end(&mut self, name: QName) -> Result<(), DeError>;
+    fn read_to_end(&mut self, name: QName) -> (r: Result<(), DeError>)
+        ensures final(self).skips() == old(self).skips().push(name.0@);
 
     /// A copy of the reader's decoder used to decode strings.
     fn decoder(&self) -> Decoder;
@@ -191,7 +208,7 @@ impl<'i, R: XmlRead<'i>, E: EntityResolver> XmlReader<'i, R, E> {
     fn next_impl(&mut self) -> (r: Result<PayloadEvent<'i>, DeError>)
         // hands out the look-ahead and reads the next one
         requires old(self).wf()
-        ensures r == old(self).lookahead, final(self).wf()
+        ensures r == old(self).lookahead, final(self).wf(), final(self).reader.skips() == old(self).reader.skips()
     {
         replace(&mut self.lookahead, self.reader.next())
     }
@@ -218,12 +235,21 @@ impl<'i, R: XmlRead<'i>, E: EntityResolver> XmlReader<'i, R, E> {
     fn drain_text(&mut self, mut result: Cow<'i, str>) -> (r: Result<DeEvent<'i>, DeError>)
         // C07: the whole run of text pieces is merged: what follows is neither Text nor CData nor a DOCTYPE
         requires old(self).wf()
-        ensures final(self).wf(), r matches Ok(ev) ==> ev is Text && final(self).text_done(),
-    {
+        ensures final(self).wf(), r matches Ok(ev) ==> ev is Text && final(self).text_done(), {
         loop
             invariant self.wf()
-            ensures self.wf(), self.text_done()
-        {
+            ensures self.wf(), self.text_done() {
+            // A DOCTYPE inside a text is not well-formed, but the reader reports it
+            // as an event. Skip it like a comment, so the text pieces around it are
+            // merged and two consequent `Text` events are never returned
+            if matches!(self.lookahead, Ok(PayloadEvent::DocType(_))) {
+                if let PayloadEvent::DocType(e) = self.next_impl()? {
+                    self.entity_resolver
+                        .capture(e)
+                        .map_err(|err| DeError::Custom(errstr_()))?;
+                }
+                continue;
+            }
             if self.current_event_is_last_text() {
                 break;
             }
@@ -290,7 +316,16 @@ impl<'i, R: XmlRead<'i>, E: EntityResolver> XmlReader<'i, R, E> {
 //@extract de::XmlReader::read_to_end | src/de/mod.rs :: impl<'i, R: XmlRead<'i>, E: EntityResolver> XmlReader<'i, R, E> :: fn read_to_end | serves=C07 features=serialize
     fn read_to_end(&mut self, name: QName) -> (r: Result<(), DeError>)
         requires old(self).wf()
-        ensures final(self).wf()
+        ensures final(self).wf(),
+            // the element is skipped with the look-ahead taken into account: if the pre-read event is the Start of an
+            // element with the SAME QUALIFIED NAME the source has to skip twice (the pre-read element, then the rest), if it
+            // is the End with that name nothing is left to skip, otherwise once; an error in the look-ahead is handed out
+            final(self).reader.skips() == old(self).reader.skips() + (match old(self).lookahead {
+                Ok(PayloadEvent::Start(e)) => if e.buf@.subrange(0, e.name_len as int) == name.0@ { seq![name.0@, name.0@] } else { seq![name.0@] },
+                Ok(PayloadEvent::End(e)) => if e.name@ == name.0@ { Seq::<Seq<u8>>::empty() } else { seq![name.0@] },
+                Ok(_) => seq![name.0@],
+                Err(_) => Seq::<Seq<u8>>::empty(),
+            }),
     {
         match self.lookahead {
             // We pre-read event with the same name that is required to be skipped.
@@ -335,7 +370,7 @@ impl<'i, R: XmlRead<'i>, E: EntityResolver> XmlReader<'i, R, E> {
 
 //@extract de::Deserializer | src/de/mod.rs :: struct Deserializer | serves=C07 features=serialize
 //@rewrite E: EntityResolver = PredefinedEntityResolver ==> E: EntityResolver
- struct Deserializer<'de, R, E: EntityResolver>
+ pub struct Deserializer<'de, R, E: EntityResolver>
 where
     R: XmlRead<'de>,
 {
@@ -354,13 +389,15 @@ where
     E: EntityResolver,
 {
     /// a peeked Text came out of the reader: the reader's look-ahead does not continue it
-    spec fn inv(&self) -> bool {
+    pub closed spec fn inv(&self) -> bool {
         &&& self.reader.wf()
         &&& self.peek matches Some(ev) ==> de_wf(ev)
         &&& self.peek matches Some(DeEvent::Text(_)) ==> self.reader.text_done()
     }
     /// nothing peeked and the reader's look-ahead does not continue a text: the next event is not a Text
     spec fn after_text(&self) -> bool { self.peek is None && self.reader.text_done() }
+    /// the next event is a Text without content (an empty CDATA section)
+    pub closed spec fn next_is_empty_text(&self) -> bool { self.peek matches Some(DeEvent::Text(t)) && t.text@.len() == 0 }
 //@extract de::Deserializer::new | src/de/mod.rs :: impl<'de, R, E> Deserializer<'de, R, E> where R: XmlRead<'de>, E: EntityResolver, :: fn new | serves=C07 features=serialize
     /// Create an XML deserializer from one of the possible quick_xml input sources.
     ///
@@ -383,7 +420,9 @@ where
 //@extract de::Deserializer::peek | src/de/mod.rs :: impl<'de, R, E> Deserializer<'de, R, E> where R: XmlRead<'de>, E: EntityResolver, :: fn peek | serves=C07 features=serialize
     fn peek(&mut self) -> (r: Result<&DeEvent<'de>, DeError>)
         requires old(self).inv()
-        ensures final(self).inv()
+        ensures final(self).inv(), r is Ok ==> final(self).peek is Some,
+            // peeking twice is peeking once
+            old(self).peek is Some ==> r is Ok && *final(self) == *old(self),
     {
         if self.peek.is_none() {
             self.peek = Some(self.reader.next()?);
@@ -401,7 +440,8 @@ where
 //@extract de::Deserializer::next | src/de/mod.rs :: impl<'de, R, E> Deserializer<'de, R, E> where R: XmlRead<'de>, E: EntityResolver, :: fn next | serves=C07 features=serialize
     fn next(&mut self) -> (r: Result<DeEvent<'de>, DeError>)
         requires old(self).inv()
-        ensures final(self).inv(), r matches Ok(ev) ==> de_wf(ev),
+        ensures final(self).inv(), r matches Ok(ev) ==> de_wf(ev), r is Ok ==> final(self).peek is None,
+            old(self).peek matches Some(ev) ==> r == Result::<DeEvent<'de>, DeError>::Ok(ev) && final(self).reader == old(self).reader,
             r matches Ok(DeEvent::Text(_)) ==> final(self).after_text(),
             old(self).after_text() ==> !(r matches Ok(DeEvent::Text(_))),
     {
@@ -409,6 +449,46 @@ where
             return Ok(e);
         }
         self.reader.next()
+    }
+//@end
+//@extract de::Deserializer::last_peeked | src/de/mod.rs :: impl<'de, R, E> Deserializer<'de, R, E> where R: XmlRead<'de>, E: EntityResolver, :: fn last_peeked | serves=C07 features=serialize
+    fn last_peeked(&self) -> (r: &DeEvent<'de>)
+        // `peek()` was called before: the slot is filled
+        requires self.peek is Some
+        ensures self.peek == Some(*r)
+    {
+        {
+            self.peek
+                .as_ref()
+                .expect("`Deserializer::peek()` should be called")
+        }
+    }
+//@end
+//@extract de::Deserializer::read_to_end | src/de/mod.rs :: impl<'de, R, E> Deserializer<'de, R, E> where R: XmlRead<'de>, E: EntityResolver, :: fn read_to_end | serves=C07 features=serialize
+    fn read_to_end(&mut self, name: QName) -> (r: Result<(), DeError>)
+        requires old(self).inv()
+        ensures final(self).inv(), r is Ok ==> final(self).peek is None
+    {
+        // First one might be in self.peek
+        match self.next()? {
+            DeEvent::Start(e) => self.reader.read_to_end(e.name())?,
+            DeEvent::End(e) if e.name() == name => return Ok(()),
+            _ => (),
+        }
+        self.reader.read_to_end(name)
+    }
+//@end
+//@extract de::Deserializer::skip_next_tree | src/de/mod.rs :: impl<'de, R, E> Deserializer<'de, R, E> where R: XmlRead<'de>, E: EntityResolver, :: fn skip_next_tree | serves=C07 features=serialize
+    fn skip_next_tree(&mut self) -> (r: Result<(), DeError>)
+        // only called when the next event -- already peeked -- is a Start: the `unreachable!()` is unreachable
+        requires old(self).inv(), old(self).peek matches Some(DeEvent::Start(_))
+        ensures final(self).inv()
+    {
+        let DeEvent::Start(start) = self.next()? else {
+            unreachable!()
+        };
+        let name = start.name();
+        self.read_to_end(name)
     }
 //@end
 //@extract de::Deserializer::read_text | src/de/mod.rs :: impl<'de, R, E> Deserializer<'de, R, E> where R: XmlRead<'de>, E: EntityResolver, :: fn read_text | serves=C07 features=serialize
@@ -437,6 +517,59 @@ where
             DeEvent::End(_) => Ok("".into()),
             DeEvent::Start(s) => Err(DeError::UnexpectedStart(s.name().as_ref().to_owned())),
             DeEvent::Eof => Err(Error::missed_end(name, self.reader.decoder()).into()),
+        }
+    }
+//@end
+}
+
+/// Model of serde::de::Visitor / Deserializer for the one entry point under contract here (A-serde): a visitor may do
+/// anything with the deserializer it is handed (`requires`: the deserializer's invariant -- the type-invariant assumption)
+pub trait Visitor<'de>: Sized {
+    type Value;
+    fn visit_none(self) -> Result<Self::Value, DeError>;
+    fn visit_some<'a, R: XmlRead<'de>, E: EntityResolver>(self, deserializer: &'a mut Deserializer<'de, R, E>) -> Result<Self::Value, DeError>
+        requires old(deserializer).inv();
+}
+pub trait DeDeserializer<'de>: Sized {
+    spec fn de_ok(&self) -> bool;
+    #[verifier::prophetic]
+    spec fn opt_post(&self) -> bool;
+    fn deserialize_option<V: Visitor<'de>>(self, visitor: V) -> (r: Result<V::Value, DeError>)
+        requires self.de_ok() ensures self.opt_post();
+}
+impl<'de, 'a, R, E> DeDeserializer<'de> for &'a mut Deserializer<'de, R, E>
+where
+    R: XmlRead<'de>,
+    E: EntityResolver,
+{
+    closed spec fn de_ok(&self) -> bool { (**self).inv() }
+    /// C07 (bounded time): an Option that is answered with `None` because the next event is an EMPTY text has consumed that
+    /// text -- otherwise a caller that asks again (a sequence of options at the top level) would be answered `None` forever
+    #[verifier::prophetic]
+    closed spec fn opt_post(&self) -> bool {
+        (**self).next_is_empty_text() ==> (*final(*self)).peek is None
+    }
+//@extract de::Deserializer::deserialize_option | src/de/mod.rs :: impl<'de, 'a, R, E> de::Deserializer<'de> for &'a mut Deserializer<'de, R, E> where R: XmlRead<'de>, E: EntityResolver, :: fn deserialize_option | serves=C07 features=serialize
+    fn deserialize_option<V>(self, visitor: V) -> (r: Result<V::Value, DeError>)
+    where
+        V: Visitor<'de>,
+    {
+        // We cannot use result of `peek()` directly because of borrow checker
+        let _ = self.peek()?;
+        match self.last_peeked() {
+            DeEvent::Text(t) if t.is_empty() => {
+                // Consume the empty text, otherwise the sequence of options
+                // at the top level would return `None` forever
+                self.next()?;
+                visitor.visit_none()
+            }
+            DeEvent::Eof => visitor.visit_none(),
+            // if the `xsi:nil` attribute is set to true we got a none value
+            DeEvent::Start(start) if self.reader.reader.has_nil_attr(&start) => {
+                self.skip_next_tree()?;
+                visitor.visit_none()
+            }
+            _ => visitor.visit_some(self),
         }
     }
 //@end
